@@ -315,6 +315,37 @@ theorem keepMask_congr : ∀ (l m : List ℚ) (p q : ℚ → Bool), (∀ x ∈ l
   have : l.map p = l.map q := List.map_congr_left h
   rw [this]
 
+theorem validWave_iff (w : List ℚ) : validWave w = true ↔ (∀ x ∈ w, 0 < x) ∧ StrictInc w := by
+  simp only [validWave, Bool.and_eq_true, List.all_eq_true, decide_eq_true_eq, strictIncB_iff]
+
+theorem validWave_map_mul (w : List ℚ) (k : ℚ) (hk : 0 < k) (h : validWave w = true) : validWave (w.map (· * k)) = true := by
+  rw [validWave_iff] at h ⊢
+  refine ⟨?_, ?_⟩
+  · intro x hx
+    obtain ⟨y, hy, rfl⟩ := List.mem_map.mp hx
+    exact mul_pos (h.1 y hy) hk
+  · exact List.Pairwise.map _ (fun a b hab => (mul_lt_mul_iff_of_pos_right hk).mpr hab) h.2
+
+theorem linspace_valid (a b : ℚ) (n : ℕ) (ha : 0 < a) (hab : a < b) (hn : 2 ≤ n) : validWave (linspace a b n) = true := by
+  rw [validWave_iff]
+  unfold linspace
+  have hn1 : ¬ n = 1 := by omega
+  rw [if_neg hn1]
+  have hstep : 0 < (b - a) / ((n - 1 : ℕ) : ℚ) := by
+    apply div_pos (by linarith)
+    have : 0 < n - 1 := by omega
+    exact_mod_cast this
+  refine ⟨?_, ?_⟩
+  · intro x hx
+    obtain ⟨i, _, rfl⟩ := List.mem_map.mp hx
+    have : (0 : ℚ) ≤ (i : ℚ) := by exact_mod_cast Nat.zero_le i
+    nlinarith [mul_nonneg this (le_of_lt hstep)]
+  · apply List.Pairwise.map _ _ (List.pairwise_lt_range (n := n))
+    intro i j hij
+    have : (i : ℚ) < (j : ℚ) := by exact_mod_cast hij
+    nlinarith
+
+
 /-- the same spectrum with its wavelengths expressed in another unit (factor k) -/
 def scaleS (k : ℚ) (s : Spectrum) : Spectrum := ⟨s.wave.map (· * k), s.value⟩
 
